@@ -12,7 +12,9 @@ Element type `M = Option Int` (`none` = masked). The theorems are the C19/C22 th
                        elements and is `masked` iff everything is masked (`mfold_spec`);
 * `ma_count_eq`, `ma_mean_eq`;
 * `ma_elemwise_den`  — block-wise binary op = element-wise op on the concatenation, mask = OR (`maZip_mask`);
-* `filled_den`, `getmaskarray_den`, `masked_where_den`;
+* `filled_den`, `getmaskarray_den`, `masked_where_den`; `masked_by_den` (every `masked_<predicate>`), `masked_inside_den`,
+  `masked_outside_den`, `masked_inside_swap` / `masked_outside_swap` (bounds in either order, as numpy.ma documents),
+  `masked_inside_raw_refuted` (the unnormalised comparison is wrong for reversed bounds), `masked_array_den`;
 * `ma_cumsum_eq`     — sequential cumsum/cumprod on masked blocks = `np.ma.cumsum` of the whole array.
 Validated only: numpy.ma corner semantics (fill_value propagation, hard masks, dtype promotion), var/std.
 -/
@@ -212,6 +214,98 @@ theorem filled_masked_where (v : Int) (c : List Bool) (d : List Int) (h : c.leng
       have := ih xs (by simpa using h)
       simp only [filled, maskedWhere, List.map_cons, List.zipWith_cons_cons] at this ⊢
       cases c <;> simp [this]
+
+/-! ## masked_inside / masked_outside / masked_<predicate> / masked_array -/
+
+/-- **masked_by_den**: masking by a predicate on the value, applied block by block, is the same masking of the whole
+    array (`masked_equal/greater/less/…/invalid/inside/outside`: one NumPy call per block) -/
+theorem masked_by_den (p : Int → Bool) (blocks : List (List M)) :
+    (blocks.map (maskedBy p)).flatten = maskedBy p blocks.flatten := by
+  unfold maskedBy; rw [List.map_flatten]
+
+theorem masked_inside_den (v1 v2 : Int) (blocks : List (List M)) :
+    (blocks.map (maskedInside v1 v2)).flatten = maskedInside v1 v2 blocks.flatten := masked_by_den _ blocks
+
+theorem masked_outside_den (v1 v2 : Int) (blocks : List (List M)) :
+    (blocks.map (maskedOutside v1 v2)).flatten = maskedOutside v1 v2 blocks.flatten := masked_by_den _ blocks
+
+theorem insideP_swap (v1 v2 x : Int) : insideP v1 v2 x = insideP v2 v1 x := by
+  unfold insideP; rw [Int.min_comm, Int.max_comm]
+
+/-- **the bounds may be given in either order** (numpy.ma's documented behaviour) -/
+theorem masked_inside_swap (v1 v2 : Int) (a : List M) : maskedInside v1 v2 a = maskedInside v2 v1 a := by
+  unfold maskedInside; congr 1; funext x; exact insideP_swap v1 v2 x
+
+theorem masked_outside_swap (v1 v2 : Int) (a : List M) : maskedOutside v1 v2 a = maskedOutside v2 v1 a := by
+  unfold maskedOutside; congr 1; funext x; rw [insideP_swap]
+
+/-- the mask of the result: the old mask OR "the value lies in the closed interval between the bounds" -/
+theorem masked_inside_mask (v1 v2 : Int) (a : List M) :
+    getmask (maskedInside v1 v2 a) = a.map fun x => match x with
+      | none => true
+      | some v => decide (min v1 v2 ≤ v ∧ v ≤ max v1 v2) := by
+  unfold getmask maskedInside maskedBy insideP
+  rw [List.map_map]
+  apply List.map_congr_left
+  intro x _
+  cases x with
+  | none => rfl
+  | some v =>
+    simp only [Function.comp]
+    by_cases h1 : min v1 v2 ≤ v <;> by_cases h2 : v ≤ max v1 v2 <;> simp [h1, h2]
+
+/-- every element is masked by exactly one of `masked_inside` / `masked_outside`, unless it was masked before -/
+theorem inside_outside_partition (v1 v2 : Int) (v : Int) :
+    (maskedInside v1 v2 [some v] = [none]) ≠ (maskedOutside v1 v2 [some v] = [none]) := by
+  unfold maskedInside maskedOutside maskedBy
+  cases h : insideP v1 v2 v <;> simp [h]
+
+/-- with ordered bounds the unnormalised test agrees … -/
+theorem insideRaw_eq_of_le (v1 v2 x : Int) (h : v1 ≤ v2) : insideRaw v1 v2 x = insideP v1 v2 x := by
+  unfold insideRaw insideP; rw [Int.min_eq_left h, Int.max_eq_right h]
+
+/-- … **with reversed bounds it does not** (the independently seeded defect C33-1: `masked_inside` written as
+    `masked_where((x >= v1) & (x <= v2), x)` masks nothing, `masked_outside` everything) -/
+theorem masked_inside_raw_refuted :
+    maskedBy (insideRaw 3 1) [some 0, some 2, none, some 5] ≠ maskedInside 3 1 [some 0, some 2, none, some 5] := by decide
+
+theorem masked_outside_raw_refuted :
+    maskedBy (fun x => !insideRaw 3 1 x) [some 0, some 2, none, some 5] ≠ maskedOutside 3 1 [some 0, some 2, none, some 5] := by decide
+
+example : maskedInside 3 1 [some 0, some 2, none, some 5] = [some 0, none, none, some 5] ∧
+    maskedOutside 3 1 [some 0, some 2, none, some 5] = [none, some 2, none, none] := by decide
+
+/-- **masked_array_den**: `da.ma.masked_array(data, mask)` built block by block (data and mask aligned to the same
+    chunks) is the masked array of the whole data and mask -/
+theorem masked_array_den (ds : List (List Int)) (ms : List (List Bool))
+    (h : ds.map List.length = ms.map List.length) :
+    (List.zipWith maskedArray ds ms).flatten = maskedArray ds.flatten ms.flatten := by
+  unfold maskedArray remask
+  have := zipWith_flatten (fun (m : Bool) (d : Int) => (if m then none else some d : M)) ms ds h.symm
+  rw [← this]
+  congr 1
+  clear this h
+  induction ds generalizing ms with
+  | nil => cases ms <;> rfl
+  | cons d ds ih =>
+    cases ms with
+    | nil => rfl
+    | cons m ms => simp only [List.zipWith_cons_cons, ih]
+
+/-- construction then `getmaskarray` / `filled` give back the mask / the data with the fill value under the mask -/
+theorem getmask_masked_array (d : List Int) (m : List Bool) (h : d.length = m.length) :
+    getmask (maskedArray d m) = m := by
+  unfold getmask maskedArray remask
+  induction m generalizing d with
+  | nil => cases d <;> simp
+  | cons b bs ih =>
+    cases d with
+    | nil => simp at h
+    | cons x xs =>
+      simp only [List.zipWith_cons_cons, List.map_cons, ih xs (by simpa using h)]
+      cases b <;> rfl
+
+example : (List.zipWith maskedArray [[1, 2], [], [3]] [[true, false], [], [false]]).flatten = [none, some 2, some 3] := by decide
 
 /-! ## cumulative reductions on masked arrays -/
 
